@@ -289,10 +289,26 @@ JsonL1 == SetToSeq(
 DocsJson == {O2(cA, x, cC, A0) : x \in {A0, O0, Null, I(1), Half, I(-1), S(<<105, 110, 102>>), S(<<78, 97, 78>>), S(<<49, 101, 51, 48, 57>>), S(<<49>>), A2(I(1), I(2)), O1(cA, A0), A1(A0)}}
             \cup {A0, O0, Null}
 
+(* ---------------- C08: slices ------------------------------------------------------------- *)
+(* parameters: absent, the window [-L-2, L+2], and huge magnitudes of both signs *)
+SlL == IF Thorough THEN 6 ELSE 4
+SlParams == <<NoneP>> \o [i \in 1..(2 * SlL + 5) |-> IntP(i - SlL - 3)]
+            \o <<HugeP(1, 1), HugeP(1, 2), HugeP(1, 3), HugeP(1, 4), HugeP(-1, 1), HugeP(-1, 2), HugeP(-1, 3), HugeP(-1, 4), HugeP(-1, 5)>>
+SlNP == Len(SlParams)
+SlBases == <<Identity, fA, Current>>
+SlTotal == SlNP * SlNP * SlNP * Len(SlBases)
+SlAt(i) == LET b == SlBases[(i % Len(SlBases)) + 1]
+               j == i \div Len(SlBases)
+           IN SliceOf(b, SlParams[(j % SlNP) + 1], SlParams[((j \div SlNP) % SlNP) + 1], SlParams[(j \div (SlNP * SlNP)) + 1])
+SlIdxL1 == SetToSeq({IdxE(b, n) : b \in {Identity, fA}, n \in {Index(k) : k \in -(SlL + 2)..(SlL + 2)} \cup {HugeIndex(1, 1), HugeIndex(1, 2), HugeIndex(1, 4), HugeIndex(-1, 1), HugeIndex(-1, 4), HugeIndex(-1, 5)}})
+SlArr(n) == Arr([i \in 1..n |-> I(i - 1)])
+DocsSlice == {SlArr(n) : n \in 0..SlL} \cup {O1(cA, SlArr(n)) : n \in 0..SlL} \cup {Null, S(<<97, 98, 99>>), O0, I(1), O1(cA, S(cAB)), A2(Null, A1(I(1)))}
+
 (* ---------------- family table ------------------------------------------------------------ *)
 L1 == CASE Family = "C01" -> CoreL1 [] Family = "C02" -> ProjL1 [] Family = "C07" -> OpL1 [] Family = "C07d" -> OpDocL1
         [] Family = "C09" -> FnL1 [] Family = "C09n" -> FnNestL1 [] Family = "C10" -> <<>> [] Family = "C10d" -> MxDocL1
         [] Family = "C10k" -> ByL1 [] Family = "C11" -> ErrL1 [] Family = "C16" -> JsonL1
+        [] Family = "C08" -> <<>> [] Family = "C08i" -> SlIdxL1
 NS == CASE Family = "C01" -> CoreNS [] Family = "C02" -> ProjNS [] Family = "C07" -> OpNS [] Family = "C09" -> FnNS
         [] Family = "C09n" -> FnNestNS [] Family = "C11" -> CtxNS [] OTHER -> 0
 Dim(s) == CASE Family = "C01" -> CoreDim(s) [] Family = "C02" -> ProjDim(s) [] Family = "C07" -> OpDim(s) [] Family = "C09" -> FnDim(s)
@@ -301,9 +317,9 @@ Wrap(s, x, k) == CASE Family = "C01" -> CoreWrap(s, x, k) [] Family = "C02" -> P
                    [] Family = "C09" -> FnWrap(s, x, k) [] Family = "C09n" -> FnNestWrap(s, x, k) [] Family = "C11" -> CtxWrap(s, x, k)
 DocSet == CASE Family = "C01" -> DocsCore [] Family = "C02" -> DocsProj [] Family \in {"C07", "C09", "C10", "C10k"} -> {Null}
             [] Family = "C07d" -> DocsOp [] Family = "C09n" -> DocsFnNest [] Family = "C10d" -> DocsMx [] Family = "C11" -> DocsCtx
-            [] Family = "C16" -> DocsJson
+            [] Family = "C16" -> DocsJson [] Family \in {"C08", "C08i"} -> DocsSlice
 (* number of wrapping levels: 1 = only L1; 2 = one Wrap; 3 = two nested Wraps *)
-Levels == CASE Family \in {"C07d", "C10d", "C10k", "C16"} -> 1 [] Family \in {"C01", "C07", "C11"} -> 3 [] Family = "C10" -> 0 [] OTHER -> 2
+Levels == CASE Family \in {"C07d", "C10d", "C10k", "C16", "C08i"} -> 1 [] Family = "C08" -> 0 [] Family \in {"C01", "C07", "C11"} -> 3 [] Family = "C10" -> 0 [] OTHER -> 2
 EmitL1 == Family \notin {"C09"}
 Styles == <<StMin, StFull, StQuoted>>
 WsOf(k) == CASE k = 1 -> "tight" [] k = 2 -> "space" [] k = 3 -> "mixed"
@@ -316,7 +332,7 @@ CumDim(s) == IF s = 0 THEN 0 ELSE CumDim(s - 1) + Dim(s)
 Ctx == LET l1 == L1
            n1 == Len(l1)
            sum == CumDim(NS)
-           t1 == IF Family = "C10" THEN MxTotal ELSE IF EmitL1 THEN n1 ELSE 0
+           t1 == IF Family = "C10" THEN MxTotal ELSE IF Family = "C08" THEN SlTotal ELSE IF EmitL1 THEN n1 ELSE 0
            t2 == IF Levels >= 2 THEN n1 * sum ELSE 0
            t3 == IF Levels >= 3 THEN n1 * sum * sum ELSE 0
        IN [l1 |-> l1, docs |-> SetToSeq(DocSet), n1 |-> n1, cum |-> [s \in 0..NS |-> CumDim(s)], sum |-> sum,
@@ -325,6 +341,7 @@ Ctx == LET l1 == L1
 WrapCode(g, o, x) == LET s == CHOOSE t \in 1..NS : g.cum[t - 1] <= o /\ o < g.cum[t] IN Wrap(s, x, o - g.cum[s - 1] + 1)
 ExprAt(g, i) ==
   IF Family = "C10" THEN MxAt(i)
+  ELSE IF Family = "C08" THEN SlAt(i)
   ELSE IF i < g.t1 THEN g.l1[i + 1]
   ELSE IF i < g.t1 + g.t2 THEN LET j == i - g.t1 IN WrapCode(g, j % g.sum, g.l1[(j \div g.sum) + 1])
   ELSE LET j == i - g.t1 - g.t2
